@@ -39,6 +39,22 @@ Theorem C20_bloom_documented_safe_present : forallb (has_exported bloom_methods)
 Proof. exact bloom_documented_safe_present. Qed.
 Print Assumptions C20_bloom_documented_safe_present.
 
+(* review round 2: what the per-method check silently relied on.  The type has exactly ONE mutex field (Lock events
+   carry no name); nothing outside the methods of bloom.Filter names one of its fields (so "every exported method is
+   well locked" really covers every path to the shared message inside the package); no method of either type mentions
+   a package-level variable (no state shared between different filters behind the back of the per-filter mutex). *)
+Theorem C20_bloom_single_mutex : single_mutex bloom_mutex_fields = true.
+Proof. exact bloom_single_mutex. Qed.
+Print Assumptions C20_bloom_single_mutex.
+
+Theorem C20_bloom_fields_private : bloom_outside_accesses = nil.
+Proof. exact bloom_fields_private. Qed.
+Print Assumptions C20_bloom_fields_private.
+
+Theorem C20_no_package_level_state : no_globals (bloom_methods ++ gcs_methods) = true.
+Proof. exact no_package_level_state. Qed.
+Print Assumptions C20_no_package_level_state.
+
 Theorem C20_nothing_unsupported :
   forallb (fun m => forallb (fun p => negb (existsb is_unsupported p)) (m_paths m)) (bloom_methods ++ gcs_methods) = true.
 Proof. exact nothing_unsupported. Qed.
@@ -100,5 +116,9 @@ Example C20_example :
   exported_path_ok bloom_methods [RLock; CallWorker "matches"%string; RUnlock; Return] = false /\
   rw_path_ok bloom_methods [RLock; CallWorker "matches"%string; RUnlock; Return] = true /\
   rw_path_ok bloom_methods [RLock; CallWorker "matchTxAndUpdate"%string; RUnlock; Return] = false /\
-  rw_path_ok bloom_methods [RLock; WriteField "msgFilterLoad"%string; RUnlock; Return] = false.
+  rw_path_ok bloom_methods [RLock; WriteField "msgFilterLoad"%string; RUnlock; Return] = false /\
+  (* a second mutex, and a package-level scratch buffer used inside a correctly locked section, are rejected *)
+  single_mutex ["mtx"%string; "rmtx"%string] = false /\
+  exported_path_ok bloom_methods [Lock; Global "opBuf"%string; CallWorker "add"%string; Unlock; Return] = false /\
+  no_globals [Method "addOutPoint"%string false [[Global "opBuf"%string; CallWorker "add"%string; Return]]] = false.
 Proof. split; [apply conc_well_locked|vm_compute; repeat split]. Qed.
